@@ -178,6 +178,7 @@ END = "END"
 
 def reference(p, tab, timestep, max_steps, root):
     T = [0]
+    LY = [None]          # the behaviour whose OWN statement (take / wait / wait for / wait until) made the last yield
     B = p["behaviors"]
 
     def cond(c):
@@ -216,6 +217,8 @@ def reference(p, tab, timestep, max_steps, root):
                 act = next(g)
             except StopIteration:
                 return
+            if check_each:
+                LY[0] = b
             yield act
             if check_each:
                 check_inv(b)
@@ -230,9 +233,11 @@ def reference(p, tab, timestep, max_steps, root):
             if k == "MK":
                 continue
             if k == "TK":
+                LY[0] = b
                 yield [s[1]]
                 check_inv(b)
             elif k == "WT":
+                LY[0] = b
                 yield []
                 check_inv(b)
             elif k in ("TE", "TS"):
@@ -300,6 +305,11 @@ def reference(p, tab, timestep, max_steps, root):
                     return
                 gens[sel] = g
                 yield act
+                # documented step 5a: a behaviour that resumes while it is not running a sub-behaviour has its invariants
+                # checked -- also when the block that yielded is not the one that goes on (a handler of higher priority takes
+                # over: the check after the `take`/`wait` in the suspended block would come too late or never)
+                if LY[0] == b:
+                    check_inv(b)
         finally:
             for g in gens.values():
                 g.close()
@@ -496,7 +506,7 @@ def main():
             cases.append((cs["name"] + "-history", cs["program"], cp.program_src(cs["program"]), h, None))
         cases.append((cs["name"], cs["program"], cp.program_src(cs["program"]), cs["run"], None))
     else:
-        nprog = int(os.environ.get('VERIF_C13_N', 100 if quick else 2500))
+        nprog = int(os.environ.get('VERIF_C13_N', 100 if quick else 900))      # thorough: ~65 000 simulations of ~900 programs (+ families)
         ntab = 24 if quick else 64
         made = 0
         attempts = 0
@@ -520,7 +530,7 @@ def main():
         trng = random.Random(rng.getrandbits(64))
         for name, p, n in fam:
             src = cp.program_src(p)
-            ntabs = 10 if quick else 40
+            ntabs = 10 if quick else 16
             for ti in range(ntabs):
                 bias = [0.25, 0.4, 0.6][ti % 3]
                 tab = [[trng.random() < bias for _ in range(7)] for _ in range(n)]
@@ -531,7 +541,7 @@ def main():
                 c.hist("generator:avoided-nestctl")
                 continue
             src = cp.program_src(p)
-            for ti in range(6 if quick else 40):
+            for ti in range(6 if quick else 16):
                 bias = [0.25, 0.4, 0.6][ti % 3]
                 tab = [[trng.random() < bias for _ in range(9)] for _ in range(3)] + [[trng.random() < 0.8 for _ in range(9)]]
                 cases.append((f"{name}-{ti}", p, src, dict(tab=tab, perms=[], max_steps=9, timestep=1, raise_gv=True), None))
